@@ -86,6 +86,8 @@ def edit(p, ctx):
                         if t < len(wk.cost_list) and wk.cost_list[t] != 0:
                             ctx.fail("C18:inserted-step-has-cost")
                     for tk in M.tasks:
+                        if type(tk).__name__ == "BaseSubProjectTask":
+                            continue  # its logs are not edited at all (listed known finding): indices do not line up
                         rl = tk.remaining_work_amount_record_list
                         if 0 < t < len(rl) and rl[t] != rl[t - 1]:
                             ctx.fail("C18:inserted-step-changes-remaining-work")
